@@ -423,9 +423,11 @@ def value_to_tree(spec, val, built=None):
     if k == 'int':
         return S(str(int(val['v'])))
     if k == 'float':
-        return S(float_text(val['v']))
+        # 'sp': a spelling that is a float only under yatiml's YAML 1.2 patch (1e5)
+        return S(val.get('sp') or float_text(val['v']))
     if k == 'str':
-        return S(val['v'], q=True)
+        # 'plain': written unquoted although YAML 1.1 reads it as bool/float (yes, 1_000.5)
+        return S(val['v'], q=not val.get('plain'))
     if k == 'bool':
         return S('true' if val['v'] else 'false')
     if k == 'none':
